@@ -22,18 +22,26 @@ Inductive case :=
    with the default action of SIGXFSZ, or SIGKILL on entry of its fchmod / fsync / rename: Died).
    [old] = the file before, holding value number [v0]; per attempt: number of its value, fate, the bytes
    a complete store of the value writes, the observed system calls, what the real getter returned
-   afterwards and the bytes found in the file *)
+   afterwards and the bytes found in the file
+   (one-process histories: [h_read] = the getter of a fresh store object, [h_read2] = the getter of the
+   long-lived object all stores of the history went through; otherwise the two are the same reading) *)
 | History (g : N) (old : bytes) (v0 : N) (atts : list hatt)
+(* quick store / read sequences on ONE long-lived store object in one process, consecutive stores of
+   different values whose files have the same length (also with the modification time pinned): per read
+   the number of the value stored last (every store is healthy), what the getter of the long-lived
+   object returned and what the getter of a fresh object returned *)
+| Reads (l : list (N * reading * reading))
 
-with hatt := mkHAtt (h_vid : N) (h_fate : fate) (h_data : bytes) (h_tr : list op) (h_read : reading)
+with hatt := mkHAtt (h_vid : N) (h_fate : fate) (h_data : bytes) (h_tr : list op) (h_read h_read2 : reading)
                     (h_file : bytes).
 
-Definition h_vid (a : hatt) := let (v, _, _, _, _, _) := a in v.
-Definition h_fate (a : hatt) := let (_, f, _, _, _, _) := a in f.
-Definition h_data (a : hatt) := let (_, _, d, _, _, _) := a in d.
-Definition h_tr (a : hatt) := let (_, _, _, tr, _, _) := a in tr.
-Definition h_read (a : hatt) := let (_, _, _, _, r, _) := a in r.
-Definition h_file (a : hatt) := let (_, _, _, _, _, b) := a in b.
+Definition h_vid (a : hatt) := let (v, _, _, _, _, _, _) := a in v.
+Definition h_fate (a : hatt) := let (_, f, _, _, _, _, _) := a in f.
+Definition h_data (a : hatt) := let (_, _, d, _, _, _, _) := a in d.
+Definition h_tr (a : hatt) := let (_, _, _, tr, _, _, _) := a in tr.
+Definition h_read (a : hatt) := let (_, _, _, _, r, _, _) := a in r.
+Definition h_read2 (a : hatt) := let (_, _, _, _, _, r, _) := a in r.
+Definition h_file (a : hatt) := let (_, _, _, _, _, _, b) := a in b.
 
 (* contents are written by the runner as [bytes_of_string "..."] (printable ASCII, the files are JSON)
    or [unhex "..."]; they are decoded once, before the closures are built (vm_compute is call-by-value) *)
@@ -71,7 +79,7 @@ Fixpoint hist_agree (s : fs) (prev : reading) (atts : list hatt) : bool :=
          | Failed => obytes_eqb now (s 0%N)
          | Died => obytes_eqb now (s 0%N) || obytes_eqb now (Some (h_data a))
          end
-      && reading_eqb (h_read a) mr
+      && reading_eqb (h_read a) mr && reading_eqb (h_read2 a) mr
       && hist_agree s' mr r
   end.
 
@@ -83,6 +91,8 @@ Definition agree (c : case) : bool :=
   | RoundTrip e => e
   | TopoFile t file e => String.eqb (print_topo t) file
   | History g old v0 atts => hist_agree (fs0 old) (RVal v0) atts
+  (* the model: a getter returns the value whose bytes the last completed store left in the file *)
+  | Reads l => reads_ok (map (fun x => (fst (fst x), snd (fst x))) l) && reads_ok (map (fun x => (fst (fst x), snd x)) l)
   end.
 
 Definition judge (c : case) : bool :=
@@ -95,8 +105,12 @@ Definition judge (c : case) : bool :=
      crash-point specification of every observed attempt in the state the earlier ones left *)
   | History g old v0 atts =>
       hist_ok (RVal v0) (map (fun a => (h_vid a, h_fate a, h_read a)) atts)
+      && hist_ok (RVal v0) (map (fun a => (h_vid a, h_fate a, h_read2 a)) atts)
       && forallb (fun sa : fs * hatt => crash_safe_b (N.to_nat g) (fst sa) 0%N (h_tr (snd sa)))
                  (hist_states (fs0 old) atts)
+  (* every read - through the long-lived object and through a fresh one - returns the value of the last
+     completed store (the history specification with all stores Done: C18_reads_judge_is_hist) *)
+  | Reads l => reads_ok (map (fun x => (fst (fst x), snd (fst x))) l) && reads_ok (map (fun x => (fst (fst x), snd x)) l)
   end.
 
 Definition tag (c : case) : N :=
@@ -106,6 +120,7 @@ Definition tag (c : case) : N :=
   | RoundTrip _ => 3
   | TopoFile t _ _ => match tpeers t with [] => 4 | _ => 5 end
   | History _ _ _ atts => if forallb (fun a => fate_eqb (h_fate a) Done) atts then 6 else 7
+  | Reads _ => 8
   end%N.
 
 Definition check_all := check_cases agree judge tag.
